@@ -53,7 +53,7 @@ fn shape_for(prop: &str, i: usize) -> Shape {
             s.p_multi = 40;
             s.p_nest = 6;
             s.tl_in_batch = v == 3;
-            real::POOL_SIZE.store([8, 2, 2, 3][v], std::sync::atomic::Ordering::SeqCst);
+            real::POOL_SIZE.store([8, 2, 1, 3][v], std::sync::atomic::Ordering::SeqCst);
         }
         "C07" => {
             s.p_batch = 35;
@@ -68,6 +68,7 @@ fn shape_for(prop: &str, i: usize) -> Shape {
             s.n_res = 2 + v * 2;
             s.max_ops = 6 + 4 * v;
             s.p_batch = 5;
+            real::POOL_SIZE.store([8, 2, 8, 1][v], std::sync::atomic::Ordering::SeqCst);
         }
         "C12" => {
             s.p_tl = 30;
@@ -125,6 +126,9 @@ fn guarded(prop: &str, case: &Case, seed: u64) -> Verdict {
         Ok(v) => v,
         Err(p) => {
             let m = real::panic_msg(p);
+            if prop == "C01" && m.contains("already") && m.contains("borrowed") {
+                return Verdict::Fails(format!("a system that fetches only what it declared saw a borrow-conflict panic during dispatch: {}", m));
+            }
             // a panic of the crate on a well-formed sequence is what C18 / C20 forbid; the other properties do not speak about it
             Verdict::Skip(format!("the crate panicked outside the builder calls: {}", m))
         }
@@ -364,6 +368,23 @@ fn main() {
                     break;
                 }
                 let mut rng = Rng::new(seed.wrapping_mul(1_000_003).wrapping_add(i as u64));
+                if prop == "C13" && i % 8 == 7 {
+                    let mut sh = shape_for(&prop, i);
+                    sh.p_nest = 0;
+                    sh.p_multi = 0;
+                    let plan = generate(&mut rng, sh);
+                    if well_formed(&plan) {
+                        if let Ok(Some(why)) = catch_unwind(AssertUnwindSafe(|| asyncd::setup_run(&plan))) {
+                            let text = format!("# property=C13\n# found-by=bounded search of the real crate (build_async + setup; seed {}, case {})\n# failure: {}\n{}a Setup\n", seed, i, why.replace('\n', " "), plan.to_text());
+                            std::fs::write(&out, text).expect("cannot write the replay file");
+                            println!("FAIL {}", why.replace('\n', " "));
+                            println!("explored={} skipped={}", explored, skipped);
+                            std::process::exit(1);
+                        }
+                        explored += 1;
+                    }
+                    continue;
+                }
                 if prop == "C12" && i % 8 == 7 {
                     // the async dispatcher runs its thread-local systems inside wait(), on the calling thread, once per wait
                     let c = asyncd::generate(&mut rng);
@@ -511,6 +532,19 @@ fn main() {
                     Err(e) => {
                         println!("ERROR cannot parse {}: {}", file, e);
                         std::process::exit(2);
+                    }
+                }
+            }
+            if prop == "C13" && text.lines().any(|l| l.trim() == "a Setup") {
+                let plan_text: String = text.lines().filter(|l| !l.trim_start().starts_with("a ")).map(|l| format!("{}\n", l)).collect();
+                match Case::from_text(&plan_text).map(|c| asyncd::setup_run(&c)) {
+                    Ok(Some(w)) => {
+                        println!("FAIL {}", w);
+                        std::process::exit(1);
+                    }
+                    _ => {
+                        println!("HOLDS");
+                        std::process::exit(0);
                     }
                 }
             }
